@@ -266,6 +266,11 @@ func drawC16(t *rapid.T, x *X) *Case {
 	c.Opts.AllowInvalid = gspec.U(t, 4, "allowinv") == 0
 	// Recover(false) is one of "the other runtime options": a sixth of the cases
 	c.Opts.NoRecover = gspec.U(t, 6, "norecover") == 0 && !c.Opts.WarmStats
+	// a block that panics whenever it runs: in an eighth of the cases, and in half of those
+	// with Recover(false) (a budget must not change what becomes of the panic)
+	if ids := codeIDs(x.G.Spec); len(ids) > 0 && !c.Opts.WarmStats && (gspec.U(t, 8, "panicblock") == 0 || (c.Opts.NoRecover && gspec.U(t, 2, "panicblocknr") == 0)) {
+		c.Plan.Faults = append(c.Plan.Faults, vrt.Fault{ID: gspec.Pick(t, ids, "panicid"), Kind: gspec.Pick(t, []string{"panic_err", "panic_str", "panic_int"}, "panickind"), Msg: "boom"})
+	}
 	c.Aux = map[string]int{"mode": gspec.U(t, 10, "budgetmode"), "frac": gspec.U(t, 100, "budgetfrac")}
 	return c
 }
